@@ -16,7 +16,73 @@ def implProbes (log : List Json) : Except String (List (Nat × Mode)) :=
       | none => throw s!"unknown mode {mn}"
     | .error _ => pure none)
 
+/-! ### self-referential containers in argument position (cases with `"kind":"cyclic"`) -/
+
+def gItemOfJson (j : Json) : Except String GItem :=
+  match j.getObjValAs? Nat "ref" with
+  | .ok i => pure (.ref i)
+  | .error _ => do return .leaf (← specOfJson (← j.getObjVal? "leaf"))
+
+def gNodeOfJson (j : Json) : Except String GNode := do
+  let t ← j.getObjValAs? String "t"
+  match t with
+  | "list" => return .list (← (← arr j "xs").mapM gItemOfJson)
+  | "tuple" => return .tuple (← (← arr j "xs").mapM gItemOfJson)
+  | "dict" => return .dict (← (← arr j "es").mapM (fun e => match e with
+      | .arr #[k, v] => do return (← gItemOfJson k, ← gItemOfJson v)
+      | _ => throw s!"bad graph entry {e.compress}"))
+  | _ => throw s!"bad graph node {t}"
+
+/-- canonical JSON of a rebuilt graph (the harness renders the implementation's result the same
+    way): tuples structurally, whether rebuilt or part of a leaf value -/
+partial def leafToJson : V → Json
+  | .tuple xs => Json.mkObj [("tuple", Json.arr (xs.map leafToJson).toArray)]
+  | v => Json.mkObj [("leaf", vToJson v)]
+
+partial def gOutToJson : GOut → Json
+  | .leaf v => leafToJson v
+  | .ref n => Json.mkObj [("ref", n)]
+  | .list n xs => Json.mkObj [("list", n), ("xs", Json.arr (xs.map gOutToJson).toArray)]
+  | .dict n es => Json.mkObj [("dict", n),
+      ("es", Json.arr (es.map (fun e => Json.arr #[gOutToJson e.1, gOutToJson e.2])).toArray)]
+  | .tuple xs => Json.mkObj [("tuple", Json.arr (xs.map gOutToJson).toArray)]
+
+/-- a leaf in argument position: `arg_val(target, leaf, scope)` under the interpreter model -/
+def evalLeaf (m : Mode) (target : V) (s : Spec) : Except Err V :=
+  let (root, st0) := rootScope {} []
+  (argVal (interp prims 64) target s (ScopeAlg.setMode root m) st0).2
+
+def runCyclic (j : Json) : Except String Json := do
+  let nodes ← (← arr j "nodes").mapM gNodeOfJson
+  let root ← gItemOfJson (← j.getObjVal? "root")
+  let targets ← (← arr j "targets").mapM vOfJson
+  let impls ← arr j "impl_graphs"
+  if impls.length != targets.length then throw "impl_graphs / targets length"
+  -- the mode in force at the argument position: Match's default is evaluated in match mode, else
+  -- the mode of the enclosing wrapper (a leaf such as Spec('id') is interpreted in that mode)
+  let pos := (j.getObjValAs? String "pos").toOption.getD ""
+  let wrap := (j.getObjValAs? String "wrap").toOption.getD ""
+  let m : Mode := if pos == "match_dflt" then .mtch else if wrap == "fill" then .fill else .auto
+  let expected : List Json := targets.map (fun t =>
+    match rebuild (evalLeaf m t) nodes root with
+    | .ok g => Json.mkObj [("ok", gOutToJson g)]
+    | .error e => Json.mkObj [("err", e.cls)])
+  if expected.any (fun e => (e.getObjValAs? String "err").toOption.any (fun c => c == "Unsupported" || c == "OutOfFuel" || c == "BadGraph")) then
+    return Json.mkObj [("skip", true), ("why", "outside the modelled domain")]
+  let same := (expected.zip impls).all (fun p => p.1.compress == p.2.compress)
+  let fresh : FreshObs :=
+    { noSpecObject := (j.getObjValAs? Bool "impl_fresh").toOption.getD true,
+      rerunSame := (j.getObjValAs? Bool "impl_rerun_same").toOption.getD true }
+  return Json.mkObj [("agree", same), ("holds", same && checkFresh fresh),
+    ("why", if !same then "a self-referential container in argument position was not reproduced with the same (cyclic) shape from the values of its leaves"
+            else if !fresh.noSpecObject then "a node of the rebuilt graph is the spec's own object"
+            else if !fresh.rerunSame then "the same spec evaluated again after the first result was mutated gave a different graph" else ""),
+    ("model", Json.arr expected.toArray),
+    ("branch", Json.str (s!"cyclic-nodes={nodes.length}" ++ (if expected.any (fun e => (e.getObjVal? "err").toOption.isSome) then "-err" else "-ok")))]
+
 def run (j : Json) : Except String Json := do
+  if (j.getObjValAs? String "kind").toOption == some "cyclic" then
+    return ← runCyclic j
   let c ← decode j
   let fuel := fuelFor c.spec
   let (mres, mlog) := runModel c
